@@ -179,6 +179,81 @@ impl CommonDeriveInput {
     }
 }
 
+/// Add to the where clauses of the `SerializeInner` and `DeserializeInner`
+/// implementations the bounds that the type declares on those type parameters
+/// that are the type of some field, imposing them on the associated
+/// serialization and deserialization types of the parameter (by which the
+/// parameter is replaced in `SerType` and `DeserType`). Bounds can be declared
+/// inline or by a predicate of the where clause of the type.
+fn add_field_param_bounds(
+    generics: &syn::Generics,
+    is_field_type: impl Fn(&syn::Ident) -> bool,
+    skip_inline: bool,
+    where_clause_ser: &mut WhereClause,
+    where_clause_des: &mut WhereClause,
+) {
+    for param in generics.params.iter() {
+        let GenericParam::Type(t) = param else {
+            continue;
+        };
+        let ty = &t.ident;
+        if !is_field_type(ty) {
+            continue;
+        }
+        let mut bounds = Punctuated::new();
+        if !skip_inline {
+            bounds.extend(t.bounds.iter().cloned());
+        }
+        if let Some(where_clause) = &generics.where_clause {
+            for predicate in where_clause.predicates.iter() {
+                if let WherePredicate::Type(pt) = predicate {
+                    if pt.lifetimes.is_none()
+                        && pt.bounded_ty.to_token_stream().to_string() == ty.to_string()
+                    {
+                        bounds.extend(pt.bounds.iter().cloned());
+                    }
+                }
+            }
+        }
+        if bounds.is_empty() {
+            continue;
+        }
+        // Add a lifetime so we express bounds on DeserType
+        let mut lifetimes = Punctuated::new();
+        lifetimes.push(GenericParam::Lifetime(LifetimeParam {
+            attrs: vec![],
+            lifetime: syn::Lifetime::new("'epserde_desertype", proc_macro2::Span::call_site()),
+            colon_token: None,
+            bounds: Punctuated::new(),
+        }));
+        where_clause_des
+            .predicates
+            .push(WherePredicate::Type(PredicateType {
+                lifetimes: Some(BoundLifetimes {
+                    for_token: token::For::default(),
+                    lt_token: token::Lt::default(),
+                    lifetimes,
+                    gt_token: token::Gt::default(),
+                }),
+                bounded_ty: syn::parse_quote!(
+                    <#ty as epserde::deser::DeserializeInner>::DeserType<'epserde_desertype>
+                ),
+                colon_token: token::Colon::default(),
+                bounds: bounds.clone(),
+            }));
+        where_clause_ser
+            .predicates
+            .push(WherePredicate::Type(PredicateType {
+                lifetimes: None,
+                bounded_ty: syn::parse_quote!(
+                    <#ty as epserde::ser::SerializeInner>::SerType
+                ),
+                colon_token: token::Colon::default(),
+                bounds,
+            }));
+    }
+}
+
 /// Return whether the struct has attributes `repr(C)`, `zero_copy`, and `deep_copy`.
 ///
 /// Performs coherence checks (e.g., to be `zero_copy` the struct must be `repr(C)`).
@@ -423,6 +498,16 @@ pub fn epserde_derive(input: TokenStream) -> TokenStream {
                     }
                 }
             });
+
+            // The same must happen for bounds declared in the where clause
+            // (inline bounds have just been handled).
+            add_field_param_bounds(
+                &derive_input.generics,
+                |ty| types_with_generics.iter().any(|x| *ty == x.to_token_stream().to_string()),
+                true,
+                &mut where_clause_ser,
+                &mut where_clause_des,
+            );
 
             if is_zero_copy {
                 quote! {
@@ -750,6 +835,16 @@ pub fn epserde_derive(input: TokenStream) -> TokenStream {
                     }
                 })
                 .collect::<Vec<_>>();
+            // If there are bounded type parameters which are types of fields
+            // of some variant, we need to impose the same bounds on the SerType
+            // and on the DeserType, as in the case of structures.
+            add_field_param_bounds(
+                &derive_input.generics,
+                |ty| types_with_generics.iter().any(|x| *ty == x.to_string()),
+                false,
+                &mut where_clause_ser,
+                &mut where_clause_des,
+            );
             let tag = (0..variants.len()).collect::<Vec<_>>();
 
             if is_zero_copy {
